@@ -17,6 +17,7 @@ type AllowedEntry struct {
 	Who     int    `json:"who"`               // actor index; -1 = use RawAddr
 	RawAddr string `json:"raw,omitempty"`     // used when Who == -1 (malformed address)
 	Max     string `json:"max"`               // integer string (may be 0 / negative for invalid cases)
+	Upper   bool   `json:"uc,omitempty"`      // the address is spelt in upper case (legal bech32, same account)
 }
 
 type ParamsSpec struct {
@@ -40,6 +41,7 @@ const (
 type Msg struct {
 	Kind string `json:"k"`
 	Who  int    `json:"who"` // actor named in the message's signer field
+	Upper bool  `json:"uc,omitempty"` // the signer field spells the address in upper case (legal bech32, same account)
 
 	AuctionID uint64 `json:"auc,omitempty"`
 	BidID     uint64 `json:"bid,omitempty"`
